@@ -185,9 +185,35 @@ type stepRun struct {
 
 var ctxForCount int
 
+// ctxOver: the next Steps/Walks run under a context that is over already.  Only for specifications without interpreted
+// code (a native action does not look at the context, and neither Step nor Walk gives up on its own: the host decides)
+var ctxOver bool
+
+func (s *ASpec) allNative() bool {
+	for _, nd := range s.Nodes {
+		if nd.Action != nil && !nd.Action.Native {
+			return false
+		}
+		for _, b := range nd.Branches {
+			if b.Guard != nil && !b.Guard.Native {
+				return false
+			}
+		}
+		if nd.Uncompiled {
+			return false
+		}
+	}
+	return true
+}
+
 // ctxFor: the context of one Step/Walk.  An endless script is stopped after 60 ms, in turn by a deadline, by a
 // cancellation of a context that has no deadline, and by a cancellation long before a far deadline.
 func ctxFor(loop bool) (context.Context, context.CancelFunc) {
+	if ctxOver {
+		ctx, cancel := context.WithCancel(context.Background())
+		cancel()
+		return ctx, func() {}
+	}
 	if loop {
 		ctxForCount++
 		switch ctxForCount % 3 {
@@ -780,6 +806,10 @@ func walkComponent(g *G, n int, opts map[string]string) *Out {
 			}
 			o.count("spec-used-by-other-machines-before")
 		}
+		if replay == nil && as.allNative() && g.chance(0.4) {
+			ctxOver = true
+			o.count("context-over-before-the-walk")
+		}
 		r1 := runWalk(spec, st.core(), deepCopy(msgs, nil).([]interface{}), ctl, props, loop)
 		r2 := runWalk(spec, st.core(), deepCopy(msgs, g).([]interface{}), ctl, props, loop)
 		// split comparison (C05): every split point, when no walk is cut short
@@ -806,6 +836,7 @@ func walkComponent(g *G, n int, opts map[string]string) *Out {
 			}
 		}
 		core.Exp_PermanentBindings = true
+		ctxOver = false
 		gor, ok := r1.coq()
 		if !ok {
 			gor = "GWalkUnrep"
